@@ -541,7 +541,15 @@ func (prop) Run(c core.Case) core.Outcome {
 		a := f.Areas[i]
 		if err == nil {
 			out.Class = "readarea:ok"
-			O("readarea-exact", core.Hex(img[a.Offset:uint64(a.Offset)+uint64(a.Size)]), core.Hex(buf))
+			// (an empty area may start beyond the image: the expected bytes are the clipped range)
+			lo, hi := uint64(a.Offset), uint64(a.Offset)+uint64(a.Size)
+			if lo > uint64(len(img)) {
+				lo = uint64(len(img))
+			}
+			if hi > uint64(len(img)) {
+				hi = uint64(len(img))
+			}
+			O("readarea-exact", core.Hex(img[lo:hi]), core.Hex(buf))
 		} else {
 			out.Class = "readarea:short"
 			O("readarea-short-justified", "true", fmt.Sprint(uint64(a.Offset)+uint64(a.Size) > uint64(len(img)) || int(a.Offset) >= len(img)))
